@@ -96,6 +96,10 @@ pub struct Engine {
     pub aux: Arena,
     pub default_props: Vec<String>,
     pub verbose: bool,
+    /// header cases (streams / message lists of the IO models), collected in a first pass
+    pub headers: Vec<Value>,
+    /// recorded traces (for TLC trace validation), if requested
+    pub trace_sink: Option<std::cell::RefCell<Vec<Value>>>,
 }
 
 /// Observation of one call.
@@ -857,7 +861,7 @@ impl<'a> Visitor for OpVisitor<'a> {
 
 impl Engine {
     pub fn new(default_props: Vec<String>) -> Self {
-        Engine { arena: Arena::new(), aux: Arena::new(), default_props, verbose: false }
+        Engine { arena: Arena::new(), aux: Arena::new(), default_props, verbose: false, headers: vec![], trace_sink: None }
     }
 
     pub fn run_case(&self, case: &Value, out: &mut Out) {
@@ -869,6 +873,24 @@ impl Engine {
             "layout" => dispatch(id, LayoutVisitor { eng: self, case, out }).is_some(),
             "op" => dispatch(id, OpVisitor { eng: self, case, out }).is_some(),
             "emp" => dispatch(id, EmpVisitor { eng: self, case, out }).is_some(),
+            "iostream" | "iomsgs" => true,
+            "iorecv" => {
+                let si = &case["si"];
+                match self.headers.iter().find(|h| h["k"] == "iostream" && &h["si"] == si) {
+                    Some(h) => dispatch(h["id"].as_str().unwrap_or(""), crate::io::IoRecvVisitor { eng: self, case, header: h, out }).is_some(),
+                    None => {
+                        out.count("unknown-header.iorecv");
+                        true
+                    }
+                }
+            }
+            "iosend" => match self.headers.iter().find(|h| h["k"] == "iomsgs") {
+                Some(h) => dispatch(h["id"].as_str().unwrap_or(""), crate::io::IoSendVisitor { eng: self, case, header: h, out }).is_some(),
+                None => {
+                    out.count("unknown-header.iosend");
+                    true
+                }
+            },
             _ => {
                 out.count(&format!("unknown-kind.{}", kind));
                 true
